@@ -419,3 +419,8 @@ func closureParamLeaves(p *ssa.Parameter, depth int) []leafVal {
 	})
 	return out
 }
+
+// leavesKeepingChain is valueLeaves; every leaf carries the chain of the frame it was found in.
+func leavesKeepingChain(v ssa.Value, chain []*ssa.Call, depth int) []leafVal {
+	return valueLeaves(v, chain, depth)
+}
